@@ -71,6 +71,16 @@ theorem links_symmetric_nested (ts : List Tok) (L : List (Option Nat)) (h : crea
 theorem links_never_ub (ts : List Tok) : createLinks ts ≠ .error .ub :=
   (createLinks_spec ts).1
 
+/-- The linker throws its syntax error exactly on mismatch: a token list is accepted iff its bracket tokens
+    (first character one of `( ) [ ] { }`) form a well-bracketed word. -/
+theorem links_accepted_iff_balanced (ts : List Tok) : (∃ L, createLinks ts = .ok L) ↔ Balanced ts :=
+  ⟨fun ⟨L, h⟩ => createLinks_ok_balanced ts L h, createLinks_balanced ts⟩
+
+example : Balanced [['('], ['x'], ['['], [']'], [')'], ['{'], ['}']] :=
+  .wrap ['('] [')'] .paren [['x'], ['['], [']']] [['{'], ['}']] rfl rfl
+    (.plain ['x'] _ (by intro ⟨k, h⟩; cases k <;> simp [firstChar, openOf, closeOf] at h) (.wrap ['['] [']'] .square [] [] rfl rfl .nil .nil))
+    (.wrap ['{'] ['}'] .brace [] [] rfl rfl .nil .nil)
+
 example : createLinks [['('], ['x'], ['['], ['{', 'x'], ['}'], [']'], [')']]
     = .ok [some 6, none, some 5, some 4, some 3, some 2, some 0] := by rfl
 example : createLinks [['('], ['['], [')'], [']']] = .error (.unmatched 1) := by rfl
